@@ -61,6 +61,10 @@ type RWMutex struct {
 	n       sync.RWMutex
 	writer  bool
 	readers int
+	// wpending: a writer has announced itself (from the first step of Lock until
+	// Unlock). As in the real sync.RWMutex a pending writer blocks new readers, so a
+	// goroutine that read-locks recursively can deadlock with a writer.
+	wpending bool
 	// happens-before hashes: hW = last writer release, hR = commutative sum of reader
 	// releases, hAll = both (what the next writer depends on). Read sections commute.
 	hW, hR, hAll uint64
@@ -71,7 +75,9 @@ func (m *RWMutex) Lock() {
 		m.n.Lock()
 		return
 	}
-	vsched.Block("lock", "rwmutex", &m.hAll, func() bool { return !m.writer && m.readers == 0 }, func() { m.writer = true })
+	// step 1: serialise with other writers and announce; step 2: wait for the readers to drain
+	vsched.Block("lock-announce", "rwmutex", &m.hW, func() bool { return !m.wpending }, func() { m.wpending = true })
+	vsched.Block("lock", "rwmutex", &m.hAll, func() bool { return m.readers == 0 }, func() { m.writer = true })
 }
 
 func (m *RWMutex) Unlock() {
@@ -80,13 +86,13 @@ func (m *RWMutex) Unlock() {
 		return
 	}
 	if vsched.Aborting() {
-		m.writer = false
+		m.writer, m.wpending = false, false
 		return
 	}
 	if !m.writer {
 		panic("sync: Unlock of unlocked RWMutex")
 	}
-	m.writer = false
+	m.writer, m.wpending = false, false
 	vsched.Release(&m.hW)
 	m.hAll = m.hW*31 + m.hR
 }
@@ -96,7 +102,7 @@ func (m *RWMutex) RLock() {
 		m.n.RLock()
 		return
 	}
-	vsched.Block("rlock", "rwmutex", &m.hW, func() bool { return !m.writer }, func() { m.readers++ })
+	vsched.Block("rlock", "rwmutex", &m.hW, func() bool { return !m.wpending }, func() { m.readers++ })
 }
 
 func (m *RWMutex) RUnlock() {
@@ -201,10 +207,10 @@ func (m *RWMutex) TryLock() bool {
 		return m.n.TryLock()
 	}
 	vsched.Yield()
-	if m.writer || m.readers > 0 {
+	if m.wpending || m.readers > 0 {
 		return false
 	}
-	m.writer = true
+	m.writer, m.wpending = true, true
 	return true
 }
 
@@ -213,7 +219,7 @@ func (m *RWMutex) TryRLock() bool {
 		return m.n.TryRLock()
 	}
 	vsched.Yield()
-	if m.writer {
+	if m.wpending {
 		return false
 	}
 	m.readers++
